@@ -486,6 +486,23 @@ pub fn judge(case: &Case, l: &mut Local) {
                     l.bucket("derived curve");
                 }
                 l.sample(|| json!({"case": mk(), "vertices_after_dedup": c.count(), "closed": c.is_closed(), "length": c.length()}));
+                if case.derived == "root" && v.len() >= 2 {
+                    // closedness is decided on the stored vertices: first and last within the tolerance
+                    // (inclusive, like the de-duplication), and always after forced closing
+                    let (a, b) = (&v[0], &v[v.len() - 1]);
+                    let gap = ((a[0] - b[0]).powi(2) + (a[1] - b[1]).powi(2)).sqrt();
+                    let expect = gap <= case.tol;
+                    if gap == case.tol {
+                        l.bucket("closing gap exactly equal to the tolerance");
+                    }
+                    l.check(
+                        "a curve is closed exactly when its stored end vertices are within the tolerance, and always after forced closing",
+                        "",
+                        c.is_closed() == expect && (!case.force_closed || c.is_closed()),
+                        mk,
+                        || format!("gap {} tol {} force_closed {} reported closed {}", gap, case.tol, case.force_closed, c.is_closed()),
+                    );
+                }
                 judge_curve(&c, ext, case.tol, &mk, l);
             }
             None => l.bucket(if case.derived == "root" { "rejected input" } else { "derived op unavailable" }),
@@ -515,7 +532,7 @@ pub fn cases(tier: Tier) -> Vec<Case> {
         let verts: Vec<Vec<i32>> = s.iter().map(|i| lat2[*i].to_vec()).collect();
         for fc in [false, true] {
             for scale in scales {
-                for tol in [1e-9, 1.0 * scale, 1.5 * scale] {
+                for tol in [0.0, 1e-9, 1.0 * scale, 1.5 * scale] {
                     out.push(Case { dim: 2, verts: verts.clone(), force_closed: fc, scale, tol, derived: "root".into() });
                 }
             }
@@ -546,9 +563,9 @@ pub fn cases(tier: Tier) -> Vec<Case> {
 
 pub fn run(tier: Tier) -> i32 {
     let mut cx = Ctx::new("C01", tier, "exploration");
-    cx.rule = "every vertex sequence (no equal consecutive points) over the 3x3 (2D) / 3x3x3 (3D) integer lattice up to the length bound x {open, force-closed} x scale x tolerance, and curves one operation away from those roots; per curve every critical length (0, L, stored vertex lengths, edge mid-points, each +-1 ulp, +-tol/2, +-2tol, and out-of-range values). distinct = distinct de-duplicated vertex lists with >= 2 edges".into();
+    cx.rule = "every vertex sequence (no equal consecutive points) over the 3x3 (2D) / 3x3x3 (3D) integer lattice up to the length bound x {open, force-closed} x scale x tolerance (0, 1e-9, one and one-and-a-half lattice steps), and curves one operation away from those roots; per curve every critical length (0, L, stored vertex lengths, edge mid-points, each +-1 ulp, +-tol/2, +-2tol, and out-of-range values). distinct = distinct de-duplicated vertex lists with >= 2 edges".into();
     cx.bounds = json!({"seq_len_2d": tier.pick(4, 5), "seq_len_3d": tier.pick(3, 4), "lattice": 3, "scales": [1.0, 0.1, 1e-3, 1e3], "tols": ["1e-9", "1.0*scale", "1.5*scale"]});
-    cx.require(&["vertex-hit", "ulp-neighbour", "mid-edge", "tol-neighbour", "out-of-range query", "seam station", "interior-vertex station", "end station", "de-duplicated input", "naturally closed input", "derived curve"]);
+    cx.require(&["vertex-hit", "ulp-neighbour", "mid-edge", "tol-neighbour", "out-of-range query", "seam station", "interior-vertex station", "end station", "de-duplicated input", "naturally closed input", "closing gap exactly equal to the tolerance", "derived curve"]);
     cx.assume("tolerances: points 1e-9*extent, lengths 16 ulp of L; direction at exactly reversing vertices (undefined by the statement) counted as gray");
     let cs = cases(tier);
     let l = sweep(&cs, judge);
